@@ -1241,17 +1241,28 @@ ARMS = [
 
 
 def run(ctx):
-    total = ctx.n(quick=2000, thorough=70000)
+    """Arms are run in rounds (each round: every arm with 1/rounds of its cases, under its own
+    Hypothesis seed derived from the worker's), so that a run cut short by the wall budget on a loaded
+    machine has still exercised every arm."""
+    total = ctx.n(quick=2000, thorough=50000)
     per = max(1, total // 4)
-    for mode, renames, storage in ARMS:
-        n = per
-        if storage == "sqlite":
-            n = max(1, ctx.n(quick=60, thorough=1500))
-        elif storage:
-            n = max(1, per // 3)
-        strat = cases(mode=mode, renames=renames, storage=storage is True, sqlite=storage == "sqlite")
-        if not ctx.run_given(strat, run_case, n):
-            return
+    rounds = 2 if ctx.tier == "quick" else 8
+    base_seed = ctx.hseed
+    try:
+        for r in range(rounds):
+            ctx.hseed = base_seed + r * 1000003
+            for mode, renames, storage in ARMS:
+                n = per
+                if storage == "sqlite":
+                    n = ctx.n(quick=60, thorough=1500)
+                elif storage:
+                    n = per // 3
+                n = max(1, n // rounds)
+                strat = cases(mode=mode, renames=renames, storage=storage is True, sqlite=storage == "sqlite")
+                if not ctx.run_given(strat, run_case, n):
+                    return
+    finally:
+        ctx.hseed = base_seed
 
 
 def replay(case, ctx):
